@@ -283,7 +283,7 @@ def parse(case, out):
     nw = int(hdr[3])
     nc = sum(1 for l in case["lines"] if l.split()[0] == "c")
     has_b = "B" in hdr[4:]
-    info = {"nw": nw, "nt": nw + nc + (1 if has_b else 0), "hasB": has_b, "bw": nw if has_b else None, "b_events": [], "cur_events": [], "function_bad": None, "jobs": {}, "events": [], "quiescent": False, "crash": None, "assert": None,
+    info = {"nw": nw, "nt": nw + nc + (1 if has_b else 0), "hasB": has_b, "bw": nw if has_b else None, "b_events": [], "cur_events": [], "function_bad": None, "closures_live": 0, "jobs": {}, "events": [], "quiescent": False, "crash": None, "assert": None,
             "threads": None, "final": {}, "pool": None, "fin": set(), "ops": [], "last": {}}
     for idx, l in enumerate(out):
         w = l.split()
@@ -309,6 +309,8 @@ def parse(case, out):
             info["b_events"].append((w[0], int(w[1][1:]), idx))
         elif w[0] in ("cur-stopped", "cur-enq", "cur-inline"):
             info["cur_events"].append((w[0], int(w[1][1:]), w[2] if len(w) > 2 else None, idx))
+        elif w[0] == "closures":
+            info["closures_live"] = int(w[1].split("=")[1])
         elif w[0].startswith("function-bad"):
             info["function_bad"] = l
         elif w[0] == "quiescent":
@@ -420,6 +422,9 @@ class PoolSuite(Suite):
         # 1b. the closure container and the current-pool API
         if i["function_bad"]:
             msgs.append("closure: cocls::function lost or duplicated a target (assignment / move / emptiness): " + i["function_bad"])
+        if i["closures_live"] != 0:
+            msgs.append("closure: %d run_detached closure object(s) were never destroyed (or destroyed twice) by the pool's "
+                        "closure container" % i["closures_live"])
         for k, t, r, idx in i["cur_events"]:
             if t >= nw and k == "cur-stopped" and r != "1":
                 msgs.append("current: thread_pool::current::is_stopped() is false on thread t%d which is no worker" % t)
